@@ -457,7 +457,7 @@ def rule_admission(ck, facts):
                 elif r[0] == "rv" and r[1][5][0] == "disc":
                     preds.append("match")
             key = "guard|%s|%s" % (variant, f.short.split("::")[-1])
-            if any(p.endswith(pred) for p in preds):
+            if any(p.endswith(pred) for p in preds) or (pred == "match" and "match" in preds):
                 ck.ok(R, key, {"error": variant, "controlled_by": pred})
             else:
                 ck.bad(R, key, "%s raises %s under %s instead of %s: %s" % (f.short, variant, [p.split("::")[-1] for p in preds if p != "match"] or "no predicate", pred.split("::")[-1], why), f.where(st))
